@@ -12,10 +12,10 @@ CHECKS["C01"] = {"engine": "E1 schedule-space explorer", "technique": _T,
 
 _N = "trusts z3 on ground pinned queries, the reference clauses of psmc/ref.py (UNSPEC corners of DESIGN.md section 4 are not demanded) and the adapter (documented task unknowns plus the internal handles listed in psmc/explore.py); bounds: <=3 tasks (4 on cumulative workers), horizon <=8"
 CHECKS["C02"] = {"engine": "E1 schedule-space explorer", "technique": _T,
-    "text": "whole box of task times, durations, scheduled/selection flags AND the busy bounds of every assignment explored on ~200 resource programs (one/two workers, delays, dynamic, selections with every count/kind, cumulative sizes, productivity x work amount grids); every admitted leaf judged by no-overlap, declared span, count, capacity and work-amount clauses",
+    "text": "whole box of task times, durations, scheduled/selection flags AND the busy bounds of every assignment explored on ~950 (quick) resource programs (one/two workers, delays, dynamic, selections with every count/kind, cumulative sizes, productivity x work amount grids); every admitted leaf judged by no-overlap, declared span, count, capacity and work-amount clauses",
     "note": _N}
 CHECKS["C03"] = {"engine": "E1 schedule-space explorer", "technique": _T,
-    "text": "every task-constraint class x boundary parameter grid x optional subsets on 2-3 task scenes: every admitted leaf must satisfy the class clause (S) and every leaf the reference calls valid must be admitted (K: constraints naming an unscheduled optional task must not bind)",
+    "text": "every task-constraint class x boundary parameter grid x optional subsets on 2-3 task scenes plus the interaction alphabet (task attributes x resource set-ups x one further element): every admitted leaf must satisfy the class clause (S) and every leaf the reference calls valid must be admitted (K: constraints naming an unscheduled optional task must not bind)",
     "note": _N}
 CHECKS["C04"] = {"engine": "E1 schedule-space explorer", "technique": _T,
     "text": "every resource-constraint class x parameter grid (interval lists, bounds x kinds, distances x modes, periods x offsets x masks, Same/Distinct lists) on plain workers, selections and cumulative workers; every admitted leaf judged by the class clause",
@@ -24,7 +24,7 @@ CHECKS["C05"] = {"engine": "E1 schedule-space explorer", "technique": "explicit 
     "text": "direction K over the union of the alphabets: every box point the reference calls VALID is admitted by the implementation (re-checked as a fully pinned leaf), the verdict of the real solve() agrees with the explored set, lost schedules are attributed to a 1-minimal culprit and confirmed through the public API in a fresh process",
     "note": _N}
 CHECKS["C06"] = {"engine": "E1 schedule-space explorer", "technique": "explicit-state enumeration of the box of P and of P-without-U on the real solver objects; set comparison (deletion differential), reported view under pins",
-    "text": "for ~900 programs with optional tasks: S direction with the full reference, reported view of every admitted leaf that leaves a task unscheduled, and for every subset U the rules allow the admitted set restricted to exactly-U-unscheduled equals (as a set) the admitted set of the program with U deleted, with equal indicator values",
+    "text": "for ~2500 (quick) programs with optional tasks: S direction with the full reference, reported view of every admitted leaf that leaves a task unscheduled, and for every subset U the rules allow the admitted set restricted to exactly-U-unscheduled equals (as a set) the admitted set of the program with U deleted, with equal indicator values",
     "note": _N + "; task deletion is defined in props/C06.py delete_tasks"}
 
 ENGINES += [
@@ -37,22 +37,22 @@ ENGINES += [
 ]
 _H = "A(P) from E1 (z3 trusted on pinned ground queries); steered models are re-checked against the implementation's own assertion stack; bounds in DESIGN.md section 8"
 CHECKS["C07"] = {"engine": "E2 controlled solver", "technique": "stateless exploration of all model-choice sequences and interruption points of the real optimisation loop under a controlled solver; E1 enumeration for the optimum",
-    "text": "for 18+ objective programs the achievable objective values come from an exhaustive E1 box exploration; the real incremental loop is then executed for EVERY strictly improving chain of models, for every max_iter, with `unknown` injected at every check index, one slow check at every index (virtual clock) and growing costs; z3.Optimize and weighted sums are compared with best*",
+    "text": "for 33+ objective programs (every built-in objective, user-indicator objectives over every indicator kind, same-direction pairs incl. weight 0) the achievable objective values come from an exhaustive E1 box exploration; the real incremental loop is then executed for EVERY strictly improving chain of models, for every max_iter, with `unknown` injected at every check index, one slow check at every index (virtual clock) and growing costs; z3.Optimize and weighted sums are compared with best*",
     "note": _H}
 CHECKS["C08"] = {"engine": "E1 schedule-space explorer", "technique": _T + "; the indicator unknown is pinned to every value of a window around the reference value",
-    "text": "for every admitted leaf of ~140 indicator programs the set of admitted indicator values must be non-empty and inside the reference tolerance set (determined and equal to the definition), the reported value too; targets/bounds judged as constraints in both directions",
+    "text": "for every admitted leaf of ~220 (quick) indicator programs the set of admitted indicator values must be non-empty and inside the reference tolerance set (determined and equal to the definition), the reported value too; targets/bounds judged as constraints in both directions",
     "note": _N}
 CHECKS["C09"] = {"engine": "E1 schedule-space explorer", "technique": _T + " (time-ordered reference walk)",
-    "text": "~850 buffer programs (both classes, level/bound grids, every load/unload role assignment): the box contains every placement, hence every interleaving and tie; S and K against the reference walk, and the level sequence reported by solve() under pins for every admitted leaf",
+    "text": "~1500 (quick) buffer programs (both classes, level/bound grids, every load/unload role assignment): the box contains every placement, hence every interleaving and tie; S and K against the reference walk, and the level sequence reported by solve() under pins for every admitted leaf",
     "note": _N}
 CHECKS["C10"] = {"engine": "E1 schedule-space explorer", "technique": _T + " (Kleene truth tables)",
-    "text": "~800 formulas (all six connectives over an atom pool, all 36 outer x inner pairs at depth 2, referenced and inline operands, every constraint class once as an optional constraint, force-apply n x kind): admitted <=> formula true, both directions, applied flags as primaries",
+    "text": "~4600 (quick) formulas (all six connectives over an atom pool, all 36 outer x inner pairs at depth 2, referenced and inline operands, every constraint class once as an optional constraint, force-apply n x kind): admitted <=> formula true, both directions, applied flags as primaries",
     "note": _N}
 CHECKS["C11"] = {"engine": "E1 schedule-space explorer", "technique": "explicit-state enumeration of the box; the real solve()/build_solution() executed under the pins of EVERY admitted leaf; field-by-field oracle",
     "text": "every admitted leaf of a corpus (all task types, workers, selections, cumulative workers, delays, dynamic, buffers, calendars, free horizon) is turned into the reported solution and checked: pins, duration, task view <=> resource view, implied assignment intervals, cumulative naming, unscheduled tasks, horizon, calendar arithmetic",
     "note": _N}
 CHECKS["C12"] = {"engine": "E3 history explorer", "technique": "enumeration of call histories and of every z3 model order (E2) on the real solver object vs. a protocol model over A(P)",
-    "text": "on 11+ bounded programs: solve + find_another_solution until failure under EVERY order in which the schedules can be delivered (<=4 timings) or every run with <=1-2 order deviations, plus all sequences of length <=3-4 over {another, another_for(v)}; distinct, valid, exhaustive, excluded value honoured, no exception",
+    "text": "on 15+ bounded programs (incl. debug=True): solve + find_another_solution until failure under EVERY order in which the schedules can be delivered (<=4 timings) or every run with <=1-2 order deviations, plus all sequences of length <=3-4 over {another, another_for(v)}; distinct, valid, exhaustive, excluded value honoured, no exception",
     "note": _H}
 CHECKS["C13"] = {"engine": "E3 history explorer", "technique": "enumeration of all call sequences up to depth 4-5 on one real SchedulingSolver vs. a protocol model over A(P)",
     "text": "all sequences over {initialize, export, solve, another, another_for(v)} on plain / infeasible / single- and two-objective programs under both optimisers and max_iter settings; every observation must be allowed by the protocol model (optimal when uninterrupted), the problem object must stay untouched and usable by a second solver",
@@ -61,17 +61,17 @@ CHECKS["C14"] = {"engine": "E1 schedule-space explorer", "technique": "explicit-
     "text": "all permutations inside each declaration stage (capped product, cap reported) and a family of collision-free renamings: admitted set, verdict and optimum (lexicographic vector under lex) must be identical; every sequence of <=2 earlier activities from a menu of 9 in the same interpreter must leave the target's admitted set, verdict and optimum equal to a fresh interpreter's",
     "note": _N}
 CHECKS["C15"] = {"engine": "E1 schedule-space explorer", "technique": "full enumeration of the 1600-point configuration product per program against E1 reference sets",
-    "text": "optimizer x priority x parallel x random_values x debug x logics (None + 24) on 11 (quick) programs: every returned schedule is a member of A(P) with a matching objective value; definite verdicts and optima of LIA-covering logics agree with A(P) and best*",
+    "text": "optimizer x priority x parallel x random_values x debug x logics (None + 24) on 13 (quick) programs incl. free-horizon ones: every returned schedule is a member of A(P) with a matching objective value; definite verdicts and optima of LIA-covering logics agree with A(P) and best*",
     "note": _H + "; z3-internal threads (parallel=True) are not controlled"}
 CHECKS["C16"] = {"engine": "E4/E5 artefact and constructor grids", "technique": "every reported solution of every admitted leaf exported and re-parsed; SMT-LIB export compared with the live solver over the whole E1 box",
-    "text": "JSON / DataFrame / CSV / Excel exports of ~540 solutions re-read with json, csv, zipfile+XML and compared field by field; 110+ SMT-LIB exports parsed and explored over the whole box (same admitted set as the live solver, both optimisers); JSON round trips of definitions",
+    "text": "JSON / DataFrame / CSV / Excel exports of ~700 solutions (incl. compact JSON) re-read with json, csv, zipfile+XML and compared field by field; 110+ SMT-LIB exports parsed and explored over the whole box (same admitted set as the live solver, both optimisers); JSON round trips of definitions",
     "note": "the solution object is the reference (C11 covers it); z3's SMT-LIB parser trusted"}
 CHECKS["C17"] = {"engine": "E4/E5 artefact and constructor grids", "technique": "every distinct reported solution of every admitted leaf rendered (Agg) in both modes; matplotlib artists inspected",
-    "text": "bars (PolyCollection paths), labels (Text), tick labels and buffer lines (Line2D) of ~900 solutions x 2 modes compared with the reported assignments, scheduled tasks, zero-length markers and buffer step functions",
+    "text": "bars (PolyCollection paths), labels (Text), tick labels and buffer lines (Line2D) of ~1700 (quick) solutions x 2 modes compared with the reported assignments, scheduled tasks, zero-length markers and buffer step functions",
     "note": "matplotlib artist geometry is taken as what is drawn; the solution object is the reference"}
 CHECKS["C18"] = {"engine": "E4/E5 artefact and constructor grids", "technique": "full boundary-value product per constructor, each tuple built through the public API in a fresh problem",
-    "text": "~280 tuples: every listed ill-formed case must raise at creation, every documented legal value (incl. boundaries) must be accepted and the problem must still initialise",
+    "text": "~310 tuples: every listed ill-formed case must raise at creation, every documented legal value (incl. boundaries) must be accepted and the problem must still initialise",
     "note": "the accept/reject predicate is transcribed from the property statement; unlisted corners are UNSPEC and only counted"}
 CHECKS["C19"] = {"engine": "E1 schedule-space explorer", "technique": "E1 decides emptiness of the box; debug runs parsed; the named subset re-explored by E1",
-    "text": "~280 programs (186 infeasible): every constraint named by the debug diagnosis is a constraint of the problem and the problem with ONLY the named constraints has an empty box (explored exhaustively); debug and plain verdicts agree; debug runs of feasible programs return members of A(P)",
+    "text": "~950 (quick) programs, two thirds infeasible: every constraint named by the debug diagnosis is a constraint of the problem and the problem with ONLY the named constraints has an empty box (explored exhaustively); debug and plain verdicts agree; debug runs of feasible programs return members of A(P)",
     "note": _N}
